@@ -326,7 +326,7 @@ static void exec_one(void)
 	env_init();
 	env_read_override = rd_override;
 	env_wait_ops.would_block = would_block;
-	snprintf(scratch, sizeof(scratch), "%s/ino.%d", access("/dev/shm", W_OK) == 0 ? "/dev/shm" : mc_arg("rundir", "/verif/build/run"), (int)getppid());
+	snprintf(scratch, sizeof(scratch), "%s/ino", mc_scratch());
 	rmrf(scratch);
 	mkdir(scratch, 0755);
 	snprintf(dir1, sizeof(dir1), "%s/d1", scratch);
